@@ -49,6 +49,9 @@ MotorCalls == {C("motors_enable", <<r1, r2>>, "") : r1 \in (-1)..6, r2 \in (-1).
 \* 2-call motor histories affordable on every change: one state the object could wrongly remember across calls, then a request that depends on it
 MotorCallsFew == {C("motors_enable", <<r1, r2>>, "") : r1 \in {0, 1, 3, 5}, r2 \in {0, 1, 3, 5}} \cup {C("motors_disable", <<>>, ""), C("motors_query_enabled", <<>>, "")}
 BoardsMotorFew == {[Board0 EXCEPT !.m1 = a, !.m2 = b, !.res = 2] : a \in BOOLEAN, b \in BOOLEAN}
+\* what the object has come to know (its name), then death, then a request that could lean on that knowledge instead of the guard
+RememberCalls == { C("write_nickname", <<>>, "Axi"), C("write_nickname", <<>>, "Lab"), C("write_nickname", <<>>, ""), C("query_nickname", <<>>, ""),
+                   C("disconnect", <<>>, ""), C("record_error", <<>>, ""), C("reboot", <<>>, ""), C("command", <<>>, "SM,100,0,0") }
 MinVer302 == <<3, 0, 2>>
 Burst3 == {0, 1, 25, 26}
 Burst2 == {0, 26}
